@@ -8,6 +8,7 @@
 #include "reftbl.h"
 #include <carquet/carquet.h>
 #include <stdio.h>
+#include <unistd.h>
 #include <stdlib.h>
 #include <string.h>
 
@@ -78,7 +79,11 @@ static bool unsupported_applies(const int* ch, const rfile_t* f) {
 static void verify(const rfile_t* f, const int* ch, const uint8_t* img, size_t n, const ref_coldata* cols, int unsup) {
     char key[200]; carquet_error_t err = CARQUET_ERROR_INIT; carquet_reader_options_t o; carquet_reader_options_init(&o);
     uint8_t* x = mc_exact(img, n);
-    carquet_reader_t* rd = carquet_reader_open_buffer(x, n, &o, &err);
+    /* the three I/O paths in turn (the stdio loaders are separate code); from memory for the first case of each process so that a fault names the simplest path */
+    static unsigned turn; int io = (int)(turn++ % 3); static char path[300]; if (!path[0]) { const char* sd = getenv("VERIF_SCRATCH"); snprintf(path, sizeof path, "%s/c06_%d.parquet", sd ? sd : "/dev/shm", (int)getpid()); }
+    carquet_reader_t* rd;
+    if (io == 0) rd = carquet_reader_open_buffer(x, n, &o, &err);
+    else { FILE* pf = fopen(path, "wb"); if (!pf || fwrite(img, 1, n, pf) != n) mc_harness_error("scratch write failed"); fclose(pf); o.use_mmap = io == 2; rd = carquet_reader_open(path, &o, &err); unlink(path); }
     const char* feat = unsup ? UNSUP[unsup] : "supported";
     if (!rd) { if (unsup) mc_outcome("unsupported.rejected-at-open"); else { snprintf(key, sizeof key, "open-failed.%s", ch[D_UNKNOWN] ? "unknown-fields" : ch[D_TFORM] ? "long-headers" : "plain"); mc_fail(key, "code %d %s", err.code, err.message); } free(x); return; }
     int nrg = f->nrg ? f->nrg : 1;
@@ -109,6 +114,20 @@ static void verify(const rfile_t* f, const int* ch, const uint8_t* img, size_t n
                 done += got; vdone += nn;
             }
             free(vb); free(db); free(rb);
+        }
+        /* the level buffers are optional ("may be NULL if not needed"): a second reader of the chunk asks for the values only, in two calls, and gets the same dense values */
+        if (!wrong && !errored && done == N && !unsup && N > 0) {
+            carquet_column_reader_t* c2 = carquet_reader_get_column(rd, g, 0, &err);
+            if (c2) { int64_t k1 = N / 2 + 1; uint8_t* vb = mc_exact(NULL, vs * (size_t)(N + 1)); memset(vb, 0xEE, vs * (size_t)(N + 1)); bool same = true; int64_t doneL = 0, doneV = 0, gsum[2] = { 0, 0 };
+                for (int call = 0; call < 2 && same; call++) {      /* byte-array views are valid until the next call on the reader: each call is compared before the next one is made */
+                    int64_t k = call == 0 ? k1 : N + 1 - doneL; if (k <= 0) break; int64_t gk = carquet_column_read_batch(c2, vb, k, NULL, NULL); gsum[call] = gk; if (gk < 0 || doneL + gk > N) { same = false; break; }
+                    int64_t nn = 0; for (int64_t i = 0; i < gk; i++) if (c->def[doneL + i] == c->max_def) nn++;
+                    if (c->ptype == PT_BYTE_ARRAY) { carquet_byte_array_t* ba = (carquet_byte_array_t*)vb; for (int64_t i = 0; same && i < nn; i++) same = (uint32_t)ba[i].length == c->strs[doneV + i].n && (!ba[i].length || !memcmp(ba[i].data, c->strs[doneV + i].p, (size_t)ba[i].length)); }
+                    else if (nn) same = !memcmp(vb, c->fixed + doneV * w, (size_t)nn * (size_t)w);
+                    doneL += gk; doneV += nn; }
+                if (same && doneL != N) same = false;
+                if (!same) { snprintf(key, sizeof key, "%s.values-without-level-buffers", feat); mc_fail(key, "rg %d: read_batch(%lld) + read_batch(rest) with def_levels = rep_levels = NULL returned %lld + %lld entries or other values than with level buffers", g, (long long)k1, (long long)gsum[0], (long long)gsum[1]); wrong = true; }
+                free(vb); carquet_column_reader_free(c2); }
         }
         if (!wrong) {
             if (done == N && !errored) mc_outcome(unsup ? "unsupported.decoded-correctly" : "decoded");
